@@ -972,6 +972,102 @@ class RegisteredDefaults(TableFamily):
 
 # ----------------------------------------------------------------------------- the list of families
 
+class SharedAuthorObjects(Family):
+    """the author's own (mutable) configuration objects handed to several constructions"""
+    name = 'shared_author_objects'
+    timeout = 30.0
+    ANSWERS = [
+        lambda: ['1', '2'],
+        lambda: [('1', '3'), '2'],
+        lambda: (['1', '2'], ['2', '3']),
+        lambda: [{'expect': '1', 'grade_decimal': 0.5}, '2'],
+        lambda: [{'expect': ('1', '4'), 'msg': 'm'}, ('2', {'expect': '3', 'grade_decimal': 0.5})],
+    ]
+    SUBS = ['StringGrader', 'FormulaGrader', 'NumericalGrader', 'StringGrader(case_sensitive=False)']
+    rule = ('one answers object (5 shapes: lists, tuples of lists, lists holding dictionaries and tuples) handed to TWO '
+            'constructions in a row, ListGrader or SingleListGrader (as list of answers), with every ordered pair of 4 item '
+            'subgraders: the second construction must succeed and equal the grader built from a fresh copy of the same '
+            'literal, the author\'s object must be unchanged, and changing it afterwards must not change either grader')
+
+    def cases(self, tier):
+        for cls in ('ListGrader', 'SingleListGrader'):
+            for a in range(len(self.ANSWERS)):
+                for s1 in range(len(self.SUBS)):
+                    for s2 in range(len(self.SUBS)):
+                        yield (cls, a, s1, s2)
+
+    def describe(self, case):
+        cls, a, s1, s2 = case
+        return {'class': cls, 'answers': repr(self.ANSWERS[a]()), 'first subgrader': self.SUBS[s1], 'second subgrader': self.SUBS[s2]}
+
+    def build(self, cls, answers, sub):
+        import mitxgraders as m
+        subg = {'StringGrader': lambda: m.StringGrader(), 'FormulaGrader': lambda: m.FormulaGrader(),
+                'NumericalGrader': lambda: m.NumericalGrader(),
+                'StringGrader(case_sensitive=False)': lambda: m.StringGrader(case_sensitive=False)}[sub]()
+        if cls == 'ListGrader':
+            return m.ListGrader(answers=answers, subgraders=subg)
+        return m.SingleListGrader(answers=answers, subgrader=subg)
+
+    def check(self, case):
+        import copy
+        cls, a, s1, s2 = case
+        literal = self.ANSWERS[a]
+        try:
+            ref1 = self.build(cls, literal(), self.SUBS[s1])
+            ref2 = self.build(cls, literal(), self.SUBS[s2])
+        except Exception as e:
+            return Result('reference-rejected', False, None, 2)      # not a valid configuration for this pair
+        shared = literal()
+        before = repr(shared)
+        try:
+            g1 = self.build(cls, shared, self.SUBS[s1])
+        except Exception as e:
+            return Result('raised', True, viol('shared:first-construction-raised', '%r' % e), 3)
+        if repr(shared) != before:
+            return Result('mutated', True, viol('shared:author-object-changed-by-construction',
+                                                'answers object is %s after construction, was %s' % (repr(shared), before),
+                                                before, repr(shared)), 3)
+        try:
+            g2 = self.build(cls, shared, self.SUBS[s2])
+        except Exception as e:
+            return Result('second-rejected', True,
+                          viol('shared:second-construction-rejected',
+                               'a valid configuration was rejected when its answers object had been used for another grader '
+                               'before: %s: %s' % (type(e).__name__, e), 'constructed', repr(e)), 4)
+        if g1 != ref1 or g2 != ref2 or repr(shared) != before:
+            return Result('differs', True,
+                          viol('shared:grader-differs-from-fresh-literal',
+                               'graders built from a shared answers object differ from those built from fresh literals',
+                               repr(ref2.config['answers'])[:300], repr(g2.config['answers'])[:300]), 4)
+        # the author goes on editing their own object: the graders keep what they were built with
+        snap1, snap2 = copy.deepcopy(g1.config['answers']), copy.deepcopy(g2.config['answers'])
+        try:
+            self.scribble(shared)
+        except Exception:
+            pass
+        if g1.config['answers'] != snap1 or g2.config['answers'] != snap2:
+            return Result('aliased', True,
+                          viol('shared:grader-config-aliases-author-object',
+                               'editing the author\'s answers object after construction changed a grader\'s configuration',
+                               repr(snap2)[:300], repr(g2.config['answers'])[:300]), 4)
+        return Result('independent', True, None, 4)
+
+    @staticmethod
+    def scribble(obj):
+        if isinstance(obj, list):
+            for x in obj:
+                SharedAuthorObjects.scribble(x)
+            obj.append('SCRIBBLE')
+        elif isinstance(obj, tuple):
+            for x in obj:
+                SharedAuthorObjects.scribble(x)
+        elif isinstance(obj, dict):
+            for x in list(obj.values()):
+                SharedAuthorObjects.scribble(x)
+            obj['msg'] = 'SCRIBBLE'
+
+
 def families(tier):
     th = ('thorough',)
     fams = [
@@ -1025,7 +1121,7 @@ def families(tier):
         Grid('answers_ListGrader', 'ListGrader', listgrader_answer_dims,
              'ListGrader answers: every pair of 6 StringGrader answer forms as a 2-list, a tuple of lists, a 3-list: stored '
              'as a tuple of lists of canonical subgrader answers'),
-        Positional(), DictBeatsKwargs(), RegisteredDefaults(), OptionPairs(),
+        Positional(), DictBeatsKwargs(), RegisteredDefaults(), OptionPairs(), SharedAuthorObjects(),
     ]
     if tier != 'thorough':
         fams = [f for f in fams if tier in getattr(f, 'tiers', ('quick', 'thorough'))]
